@@ -323,7 +323,8 @@ def check(ctx):
         classes = {}
         for c, alts in sorted(per_ctor.items()):
             for conds, sv in alts:
-                if c == "Tuple" and any("is_empty()" in x and not x.endswith("not(types.is_empty())") and "not(" not in x for x in conds):
+                from svlib import atom_polarity
+                if c == "Tuple" and any(atom_polarity(x, r"\w+\.is_empty\(\)") is True for x in conds):
                     if render(sv) == "void":
                         r3.ok("%s::%s Tuple() -> void" % (owner, entry))
                     else:
